@@ -170,6 +170,7 @@ class CallMixin:
   def map_store(self, m, key, v, move_to_end=False):
     self.check_guard(m, 'write')
     k = self.unwrap_key(m, key)
+    m.keys_seen.append(k)
     was = z3.Select(m.has, k)
     m.size = z3.If(was, m.size, m.size + 1)
     if m.stamp is not None:
@@ -315,6 +316,11 @@ class CallMixin:
       self.raise_('StopIteration')
     k = z3.Const(self.path.fresh_name('first'), m.ksort)
     j = z3.Const(self.path.fresh_name('k'), m.ksort)
+    # cardinality fact of finite maps (size = |domain|, maintained exactly by the
+    # model): a map with >= 2 entries has an entry other than any given key
+    for x in m.keys_seen:
+      y = z3.Const(self.path.fresh_name('other'), m.ksort)
+      self.assume(z3.Implies(z3.And(m.size >= 2, z3.Select(m.has, x)), z3.And(z3.Select(m.has, y), y != x)))
     self.assume(z3.Select(m.has, k))
     self.assume(z3.ForAll([j], z3.Implies(z3.Select(m.has, j), z3.Select(m.stamp, k) <= z3.Select(m.stamp, j))))
     return self.wrap_key(m, k)
